@@ -14,7 +14,7 @@ EXPLANATION = (
     "the completion arity on exactly the terminal paths and build their transducer state per application; element values are "
     "never used as truthiness tests; 'previous element' cells start from a sentinel outside the element domain."
 )
-DECIDES = "transducer template, completion-exactly-once discipline of the application forms, reduced propagation, falsey-element punning, sentinel initialisation"
+DECIDES = "transducer template, completion-exactly-once discipline of the application forms, reduced propagation, falsey-element punning, sentinel initialisation, a transducer's mutable state is created per application (inside (fn [rf] ..), no per-call state maker hoisted out of it)"
 DECLINED = "element-wise agreement of the five application forms on concrete inputs; how many input elements are pulled (a counting fact)"
 TRUSTED = ["a `reduced` value must not be passed to a reducing function again"]  # 'reduce unwraps one level of reduced' was trusted in Part I; it is checked by R5 now
 ASSUMPTIONS = []
@@ -545,3 +545,126 @@ SELFTEST = [
     {"name": "twin: when-let on the seq, not the element", "file": CORE, "expect": None,
      "old": "      (when-let [coll (seq coll)]\n        (let [e (first coll)]\n          (cons e (coll-dedupe (rest coll) e))))))))", "new": "      (let [coll (seq coll)]\n        (when coll\n          (let [e (first coll)]\n            (cons e (coll-dedupe (rest coll) e)))))))))"},
 ]
+
+
+CELL_MAKERS = ("volatile!", "atom", "python/list", "python/dict", "python/set", "transient", "object-array")
+
+
+def _is_rf_fn(f) -> bool:
+    if L.head(f) not in ("fn", "fn*"):
+        return False
+    pv = next((x for x in f.items[1:3] if isinstance(x, L.Vec)), None)
+    return pv is not None and [p.text() for p in pv.items] == ["rf"]
+
+
+def _is_fn_form(f) -> bool:
+    return L.head(f) in ("fn", "fn*") or isinstance(f, L.FnLit)
+
+
+def _inside(f, pred, stop) -> bool:
+    for a in L.ancestors(f):
+        if a is stop:
+            return False
+        if pred(a):
+            return True
+    return False
+
+
+def _state_sharing(defs: dict):
+    """-> (xf_arities, problems).  xf_arities: name -> set of argument counts at which the function
+    returns a transducer (its body holds `(fn [rf] ...)`, or it delegates to such an arity of another
+    function, least fixpoint).  problems: (name, line, text) for every mutable cell that one
+    transducer *value* would share between its applications."""
+    arities = {n: L.fn_arities(d) for n, d in defs.items()}
+    # a function of exactly [rf] *is* the (fn [rf] ...) (cat): a transducer value, not a maker of one
+    values = {n for n, ars in arities.items() if len(ars) == 1 and [p.text() for p in ars[0][0].items] == ["rf"]}
+    xf = {}
+    for n in XF_FNS:
+        for params, body in arities.get(n, []):
+            cnt, var = L.param_count(params)
+            if body and not var and _find_xf(body[-1])[0] is not None:
+                xf.setdefault(n, set()).add(cnt)
+
+    def xf_call(f) -> bool:
+        h = L.head(f)
+        return h in xf and (len(f.items) - 1) in xf[h]
+
+    for _ in range(4):  # delegation: (remove pred) = (filter (complement pred)), mapcat = (comp (map f) cat)
+        for n, ars in arities.items():
+            for params, body in ars:
+                cnt, var = L.param_count(params)
+                if not body or var or cnt in xf.get(n, ()):
+                    continue
+                tail = body[-1]
+                if xf_call(tail) or (L.head(tail) == "comp" and any(xf_call(a) or (isinstance(a, L.Sym) and a.val in values) for a in tail.items[1:])):
+                    xf.setdefault(n, set()).add(cnt)
+    # per-call state makers: a cell created at the call level of an arity that also builds a closure
+    makers = {}
+    for n, ars in arities.items():
+        d = defs[n]
+        for params, body in ars:
+            for b in body:
+                for f in L.walk(b):
+                    if L.head(f) in CELL_MAKERS and not _inside(f, _is_fn_form, d) and any(_is_fn_form(g) for g in L.walk(b)):
+                        makers.setdefault(n, f)
+    problems = []
+    for n, ars in arities.items():
+        d = defs[n]
+        if n in values:
+            continue
+        for params, body in ars:
+            cnt, var = L.param_count(params)
+            is_xf_arity = cnt in xf.get(n, ()) and not var
+            for b in body:
+                for f in L.walk(b):
+                    if _inside(f, _is_rf_fn, d) or _is_rf_fn(f):
+                        continue
+                    # (a) a cell created in a transducer arity but outside (fn [rf] ...)
+                    if is_xf_arity and L.head(f) in CELL_MAKERS:
+                        problems.append((n, f.line, f"{f.text()[:60]} is created when the transducer is made, outside (fn [rf] ...)"))
+                    # (b) a per-call state maker called for the argument of a transducer-returning call
+                    if xf_call(f):
+                        for a in f.items[1:]:
+                            for g in L.walk(a):
+                                if L.head(g) in makers and not _inside(g, _is_rf_fn, d):
+                                    problems.append((n, g.line, f"({L.head(f)} {a.text()[:50]}): `{L.head(g)}` creates {makers[L.head(g)].text()[:40]} once, when the transducer value is made"))
+    for n in values:
+        xf.setdefault(n, set())
+    return xf, problems
+
+
+_R8_POSITIVE = """
+(defn- indexed-fn [f] (let [idx (volatile! -1)] (fn [input] (f (vswap! idx inc) input))))
+(defn map ([f] (fn [rf] (fn ([] (rf)) ([result] (rf result)) ([result input] (rf result (f input)))))) ([f coll] nil))
+(defn map-indexed ([f] (map (indexed-fn f))) ([f coll] nil))
+(defn keep-indexed ([f] (let [idx (volatile! -1)] (fn [rf] (fn ([] (rf)) ([r] (rf r)) ([r i] (rf r (f (vswap! idx inc) i))))))) ([f coll] nil))
+"""
+
+
+@rule("C07.R8", floor=15)
+def r8_transducer_state_is_per_application(ctx):
+    """A transducer is a value: the same `(map-indexed f)` may be applied to several reducing
+    functions (a named xf used by two `into`s, an eduction iterated twice), and every application
+    starts from fresh state.  So the mutable cells of a transducer are created inside `(fn [rf] ...)`:
+    none in a transducer arity outside it, and no function that creates a cell per call and returns
+    a closure over it is called, outside `(fn [rf] ...)`, for the argument of a transducer-returning
+    call (`(map (indexed-fn f))` counts on across applications)."""
+    # the detector must find both shapes in a tiny positive example, on every run
+    pos = L.top_defs(L.read_all(_R8_POSITIVE, "<C07.R8 positive example>"))
+    _xf, pp = _state_sharing(pos)
+    if {p[0] for p in pp} != {"map-indexed", "keep-indexed"}:
+        raise AnalysisError(f"C07.R8's detector no longer finds its positive examples: {pp}")
+    defs = _defs(ctx)
+    xf, problems = _state_sharing(defs)
+    by = {}
+    for n, line, text in problems:
+        by.setdefault(n, []).append((line, text))
+    for n in sorted(set(xf) | set(by)):
+        bad = by.get(n)
+        ok = not bad
+        ctx.ob("C07.R8", f"{CORE}::{n}::transducer state is created per application", CORE, (bad[0][0] if bad else defs[n].line), ok,
+               "" if ok else f"{bad[0][1]}: a second application of the same transducer value continues from the state the first one left",
+               witness="(let [xf (map-indexed vector)] [(into [] xf [:a]) (into [] xf [:a])]) must be [[[0 :a]] [[0 :a]]]")
+    missing = [n for n in XF_FNS if n not in xf]
+    if missing:
+        raise AnalysisError(f"no transducer arity recognised for {missing}")
